@@ -283,18 +283,15 @@ var vC07Shapes = []string{
 	"token-extra-slot", "unknown-chain",
 }
 
-func TestVerif_C07(t *testing.T) {
-	ctx := context.Background()
-	r := vNewRand(vSeed() + 7)
-	n := vEnvInt("VERIF_N", 300)
-	sink := vOpenSink("C07_merge")
-	defer sink.Close()
-	for i := 0; i < n; i++ {
-		cr := vNewRand(r.U64())
-		shape := vC07Shapes[i%len(vC07Shapes)]
+// one generated case: the DON, the fChain map, the observations (honest world + Byzantine shape) and the home chain
+func vC07Build(cr *vRand, shape string, forceN, forceF int, distinctF bool) (*vC07Case, int, []commontypes.OracleID, *vHomeChain, map[commontypes.OracleID]libocrtypes.PeerID) {
+	{
 		g := &vC07Case{r: cr, sup: map[commontypes.OracleID]map[cciptypes.ChainSelector]bool{},
 			f: map[cciptypes.ChainSelector]int{}, obs: map[commontypes.OracleID]*exectypes.Observation{}}
 		nOr := cr.Range(4, 10)
+		if forceN > 0 {
+			nOr = forceN
+		}
 		perm := cr.Perm(16)
 		for k := 0; k < nOr; k++ {
 			g.ids = append(g.ids, commontypes.OracleID(perm[k]))
@@ -313,6 +310,9 @@ func TestVerif_C07(t *testing.T) {
 		if shape == "weird-f" && cr.Bool() {
 			delete(g.f, vC07Dest) // fChain[dest] reads as 0
 		}
+		if distinctF && shape != "weird-f" && g.f[vC07Dest] == g.f[g.chains[0]] {
+			g.f[vC07Dest] = g.f[vC07Dest]%3 + 1 // f(source) != f(dest)
+		}
 		for _, o := range g.ids {
 			g.sup[o] = map[cciptypes.ChainSelector]bool{vC07Dest: cr.Chance(3, 4)}
 			for _, c := range g.chains {
@@ -321,6 +321,9 @@ func TestVerif_C07(t *testing.T) {
 			g.obs[o] = &exectypes.Observation{}
 		}
 		bigF := cr.Range(1, 3)
+		if forceF > 0 {
+			bigF = forceF
+		}
 		if shape == "below-F" {
 			bigF = nOr + cr.Range(0, 1)
 		}
@@ -617,6 +620,20 @@ func TestVerif_C07(t *testing.T) {
 				hc.SetChain(c, f, peers)
 			}
 		}
+		return g, bigF, byz, hc, p2p
+	}
+}
+
+func TestVerif_C07(t *testing.T) {
+	ctx := context.Background()
+	r := vNewRand(vSeed() + 7)
+	n := vEnvInt("VERIF_N", 300)
+	sink := vOpenSink("C07_merge")
+	defer sink.Close()
+	for i := 0; i < n; i++ {
+		cr := vNewRand(r.U64())
+		shape := vC07Shapes[i%len(vC07Shapes)]
+		g, bigF, byz, hc, p2p := vC07Build(cr, shape, 0, 0, false)
 		p := &Plugin{
 			reportingCfg:    ocr3types.ReportingPluginConfig{OracleID: g.ids[0], F: bigF},
 			destChain:       vC07Dest,
@@ -688,5 +705,159 @@ func TestVerif_C07(t *testing.T) {
 		sink.Emit("C07_merge", shape, nt, cPair(in, cPair(cList(vals), out)),
 			map[string]any{"oracles": g.ids, "fChain": fmt.Sprint(g.f), "F": bigF, "byzantine": byz, "shape": shape,
 				"accepted": len(accepted), "observations": g.obs, "result": out})
+	}
+}
+
+// ---------------------------------------------------------------------------------------------------------------
+// Plugin level: execute.Plugin.ValidateObservation on every observation, then execute.Plugin.Outcome on the accepted
+// ones (F from the reporting config, fChain from the plugin's home chain), in the GetCommitReports phase (the outcome's
+// PendingCommitReports are the merged commit reports) and in the GetMessages phase (the previous outcome holds one wide
+// pending report per chain, so the outcome's reports carry the merged messages). N in {4, 7}, F in {1, 2},
+// f(source) != f(dest).
+func TestVerif_C07_outcome(t *testing.T) {
+	ctx := context.Background()
+	r := vNewRand(vSeed() + 8)
+	n := vEnvInt("VERIF_N", 200)
+	sink := vOpenSink("C07_outcome")
+	defer sink.Close()
+	for i := 0; i < n; i++ {
+		cr := vNewRand(r.U64())
+		shape := vC07Shapes[i%len(vC07Shapes)]
+		phase := 1 + (i/len(vC07Shapes))%2
+		forceN := vPick(cr, []int{4, 7})
+		forceF := vPick(cr, []int{1, 2})
+		g, bigF, byz, hc, p2p := vC07Build(cr, shape, forceN, forceF, true)
+		p := &Plugin{
+			reportingCfg:    ocr3types.ReportingPluginConfig{OracleID: g.ids[0], F: bigF, N: len(g.ids)},
+			destChain:       vC07Dest,
+			homeChain:       hc,
+			oracleIDToP2pID: p2p,
+			lggr:            mocks.NullLogger,
+		}
+		var prev []byte
+		if phase == 2 {
+			var wide []exectypes.CommitData
+			for k, c := range append(append([]cciptypes.ChainSelector{}, g.chains...), vC07Dest) {
+				wide = append(wide, exectypes.CommitData{SourceChain: c, Timestamp: vC07T0.Add(time.Duration(k) * time.Second),
+					MerkleRoot: vC07B32(uint64(7000 + k)), SequenceNumberRange: cciptypes.NewSeqNumRange(0, 1<<40)})
+			}
+			var err error
+			prev, err = exectypes.NewOutcome(exectypes.GetCommitReports, wide, cciptypes.ExecutePluginReport{}).Encode()
+			if err != nil {
+				t.Fatal(err)
+			}
+		}
+		outctx := ocr3types.OutcomeContext{SeqNr: 5, PreviousOutcome: prev}
+		tab := vC07NewTab()
+		var inAos, vals []string
+		var accepted []types.AttributedObservation
+		for _, o := range g.ids {
+			enc, err := g.obs[o].Encode()
+			if err != nil {
+				t.Fatal(err)
+			}
+			dec, err := exectypes.DecodeObservation(enc)
+			if err != nil {
+				t.Fatal(err)
+			}
+			var sup []uint64
+			for _, c := range append(append([]cciptypes.ChainSelector{}, g.chains...), vC07Dest) {
+				if g.sup[o][c] {
+					sup = append(sup, uint64(c))
+				}
+			}
+			inAos = append(inAos, cTup(cN(uint64(o)), cListN(sup), tab.Obs(dec)))
+			ao := types.AttributedObservation{Observation: enc, Observer: o}
+			verr := p.ValidateObservation(ctx, outctx, types.Query{}, ao)
+			vals = append(vals, cBool(verr == nil))
+			if verr == nil {
+				accepted = append(accepted, ao)
+			}
+		}
+		var out string
+		func() {
+			defer func() {
+				if rec := recover(); rec != nil {
+					out = "Panic"
+				}
+			}()
+			ob, err := p.Outcome(ctx, outctx, types.Query{}, accepted)
+			if err != nil {
+				out = "Err"
+				return
+			}
+			oc, err := exectypes.DecodeOutcome(ob)
+			if err != nil {
+				out = "Panic"
+				return
+			}
+			var commits, msgs []string
+			if phase == 1 {
+				l := append([]exectypes.CommitData{}, oc.PendingCommitReports...)
+				sort.Slice(l, func(a, b int) bool { return tab.CommitID(l[a]) < tab.CommitID(l[b]) })
+				commits = cMapS(l, tab.Commit)
+			} else {
+				l := append([]exectypes.CommitData{}, oc.PendingCommitReports...)
+				sort.Slice(l, func(a, b int) bool { return l[a].SourceChain < l[b].SourceChain })
+				for _, d := range l {
+					if len(d.Messages) == 0 {
+						continue
+					}
+					var ms []string
+					for _, m := range d.Messages {
+						ms = append(ms, cPair(cN(uint64(m.Header.SequenceNumber)), tab.Msg(m)))
+					}
+					msgs = append(msgs, cPair(cN(uint64(d.SourceChain)), cList(ms)))
+				}
+			}
+			out = "(Ok " + cPair(cList(commits), cList(msgs)) + ")"
+		}()
+		fkeys := vC07SortedKeys(g.f)
+		fchain := make([]string, len(fkeys))
+		for k, c := range fkeys {
+			fchain[k] = cPair(cN(uint64(c)), cZ(int64(g.f[c])))
+		}
+		in := cTup(cNi(phase), cZ(int64(bigF)), cN(uint64(vC07Dest)), cList(fchain), cList(inAos))
+		sink.Emit("C07_outcome", fmt.Sprintf("phase-%d/N%d-F%d/%s", phase, len(g.ids), bigF, shape), out != "Err" && len(accepted) >= 2,
+			cPair(in, cPair(cList(vals), out)),
+			map[string]any{"oracles": g.ids, "fChain": fmt.Sprint(g.f), "F": bigF, "byzantine": byz, "shape": shape, "phase": phase,
+				"accepted": len(accepted), "observations": g.obs, "result": out})
+	}
+}
+
+func cMapS[T any](xs []T, f func(T) string) []string {
+	s := make([]string, len(xs))
+	for i, x := range xs {
+		s[i] = f(x)
+	}
+	return s
+}
+
+// execute.Plugin.ObservationQuorum: f+1 observations
+func TestVerif_C07_quorum(t *testing.T) {
+	ctx := context.Background()
+	r := vNewRand(vSeed() + 9)
+	n := vEnvInt("VERIF_N", 100)
+	sink := vOpenSink("C07_quorum")
+	defer sink.Close()
+	for i := 0; i < n; i++ {
+		N := r.Range(4, 13)
+		F := r.Range(0, (N-1)/3)
+		count := vPick(r, []int{0, F, F + 1, F + 2, 2 * F, 2*F + 1, N, r.Intn(N + 1)})
+		p := &Plugin{reportingCfg: ocr3types.ReportingPluginConfig{N: N, F: F}, lggr: mocks.NullLogger}
+		aos := make([]types.AttributedObservation, count)
+		for k := range aos {
+			aos[k].Observer = commontypes.OracleID(k)
+		}
+		out := "2%N"
+		func() {
+			defer func() { _ = recover() }()
+			ok, err := p.ObservationQuorum(ctx, ocr3types.OutcomeContext{}, types.Query{}, aos)
+			if err == nil {
+				out = cNi(map[bool]int{false: 0, true: 1}[ok])
+			}
+		}()
+		sink.Emit("C07_quorum", fmt.Sprintf("count-F=%d", count-F), true, cPair(cTup(cNi(N), cZ(int64(F)), cNi(count)), out),
+			map[string]any{"N": N, "F": F, "observations": count, "result": out})
 	}
 }
